@@ -108,6 +108,7 @@ pub(crate) fn run(seed: u64, n: u64, out: &mut Out) {
     let mut case_no = 0u64;
     run_download_order(&mut rng, out, &consensus);
     run_pending_in_store_only(&mut rng, out, &consensus);
+    run_substituted_body(&mut rng, out, &consensus);
     for world in 0..n {
         let pool: Vec<packed::Script> = (1..=4u8).map(|i| pool_script(7, &[i])).collect();
         let mut gen = TxGen::new(pool.clone(), world * 100_000, 3);
@@ -515,6 +516,89 @@ fn run_download_order(rng: &mut Rng, out: &mut Out, consensus: &ckb_chain_spec::
     }
 }
 
+
+/// The answer to GetBlocks carries the PROVEN header of a matched block with another body (the registered script's transaction
+/// dropped).  It must not be indexed, must not complete the record and must not raise the script numbers; the authentic block sent
+/// afterwards must still be indexed.
+fn run_substituted_body(rng: &mut Rng, out: &mut Out, consensus: &ckb_chain_spec::consensus::Consensus) {
+    use ckb_types::bytes::Bytes;
+    for w in 0..3u64 {
+        let first = rng.range(12, 30);
+        let len = first + 12;
+        let script = pool_script(7, &[2]);
+        let outside = pool_script(9, &[8]);
+        let mut all: HashMap<packed::Byte32, packed::Transaction> = HashMap::new();
+        let mut salt = 0u32;
+        let chain = super::chain::SynChain::new_with_bodies(flat_plan(((len / 8) + 2) as usize, 8, 5), len, 43_000 + w, 0, &mut |_n| {
+            let mut txs = Vec::new();
+            for lock in [outside.clone(), script.clone()] {
+                salt += 1;
+                let output = packed::CellOutput::new_builder().capacity(100u64.pack()).lock(lock).build();
+                let raw = packed::RawTransaction::new_builder().version(salt.pack()).outputs(vec![output].pack()).outputs_data(vec![Bytes::new().pack()].pack()).build();
+                let tx = packed::Transaction::new_builder().raw(raw).build();
+                all.insert(tx.calc_tx_hash(), tx.clone());
+                txs.push(tx);
+            }
+            txs
+        });
+        let mut bc = BodyChain { chain, all, filters: Vec::new(), fhashes: Vec::new() };
+        bc.derive_pub();
+        let mut net = Net::new(&bc.chain, consensus, 5, 1, 10);
+        let peer = PeerIndex::new(1);
+        if !net.prove_peer(peer, &bc.chain, bc.tip()) { out.stat("c06-substituted-body-unproven", &format!("{}", w)); continue; }
+        net.storage.update_filter_scripts(vec![ScriptStatus { script: script.clone(), script_type: ScriptType::Lock, block_number: first }], SetScriptsCommand::All);
+        net.peers.update_min_filtered_block_number(first);
+        let hs: Vec<packed::Byte32> = (1..=bc.tip()).map(|j| bc.fhashes[j as usize].clone()).collect();
+        net.peers.mock_latest_block_filter_hashes(peer, 0, hs);
+        let mut problems: Vec<String> = Vec::new();
+        let m = serve_block_filters(&bc, first + 1, 3);
+        let r1 = net.fp_recv(peer, filters_message(m));
+        if r1.panicked || matched_records(&net).len() != 1 { out.stat("c06-substituted-body-no-record", &format!("{}", w)); continue; }
+        // the proof request is answered honestly; the first GetBlocks is answered with the substituted body
+        let mut queue = r1.sent;
+        let mut asked: Vec<packed::Byte32> = Vec::new();
+        for _ in 0..4 {
+            let mut next = Vec::new();
+            for (p, s) in queue {
+                match s {
+                    Sent::GetBlocksProof(req) => { if let Some(resp) = serve_blocks_proof(&bc.chain, &req) { let r = net.lc_recv(p, blocks_proof_message(resp)); next.extend(r.sent); } }
+                    Sent::GetBlocks(hashes) => { asked.extend(hashes); }
+                    _ => {}
+                }
+            }
+            queue = next;
+            if !asked.is_empty() || queue.is_empty() { break; }
+        }
+        let target = match asked.iter().filter_map(|h| bc.chain.number_of(h)).min() { Some(n) => n, None => { out.stat("c06-substituted-body-no-download", &format!("{}", w)); continue; } };
+        let genuine = bc.chain.block(target);
+        let variant = w % 3;
+        let kept: Vec<packed::Transaction> = match variant { 0 => vec![bc.chain.bodies[target as usize][0].clone()], 1 => Vec::new(), _ => { let mut t = bc.chain.bodies[target as usize].clone(); t.reverse(); t } };
+        let forged = genuine.clone().as_builder().transactions(kept.pack()).build();
+        let numbers_before: Vec<u64> = net.storage.get_filter_scripts().iter().map(|s| s.block_number).collect();
+        let r2 = net.sp_recv(peer, send_block_message(forged));
+        if r2.panicked { problems.push(format!("[C10-handler-panic] SendBlock with a substituted body panicked: {}", super::last_panic())); }
+        let numbers_after: Vec<u64> = net.storage.get_filter_scripts().iter().map(|s| s.block_number).collect();
+        let still_pending = matched_records(&net).iter().any(|(_, _, blocks)| blocks.iter().any(|(h, _)| bc.chain.number_of(h) == Some(target)));
+        if !still_pending || numbers_after != numbers_before {
+            problems.push(format!("[C06-substituted-body-accepted] [C02-substituted-body-accepted] the proven header of block {} with another body ({}) was processed: record pending {} script numbers {:?} -> {:?}",
+                target, ["the script's transaction dropped", "no transactions", "transactions reversed"][variant as usize], still_pending, numbers_before, numbers_after));
+        }
+        // now the authentic blocks
+        let mut q2: Vec<(PeerIndex, Sent)> = vec![(peer, Sent::GetBlocks(asked.clone()))];
+        q2.extend(r2.sent);
+        pump_downloads(&mut net, &bc, q2, &mut problems);
+        for n in first + 1..=first + 3 {
+            let h = bc.chain.bodies[n as usize][1].calc_tx_hash();
+            if net.storage.get_transaction_with_header(&h).is_none() {
+                problems.push(format!("[C06-script-activity-skipped] block {} pays to the registered script and its transaction is not in the index after the authentic blocks were served (script numbers {:?})", n, net.storage.get_filter_scripts().iter().map(|s| s.block_number).collect::<Vec<_>>()));
+                break;
+            }
+        }
+        let oracle = if problems.is_empty() { Ok(()) } else { Err(problems.join(" || ")) };
+        out.case(&format!("substituted-body-{}", w), &["substituted-body"], "(VN 1)", &Val::n(1), oracle,
+            &format!("batch {}..{} matches; GetBlocks for block {} answered with its proven header and another body (variant {}), then with the authentic blocks", first + 1, first + 3, target, variant));
+    }
+}
 
 /// A record pending in the store only (restart / rollback window: the download table is empty), then another batch with matches,
 /// then the body of one of ITS blocks: the table has to be loaded from the EARLIEST record (Model/MatchedBlocks.v, table_inv), and
